@@ -132,6 +132,8 @@ def apply_op(engine, op, scripts):
         return bool(engine.iterate())
     if op == "N":
         return bool(engine.iterate_n(2))
+    if op == "Z":
+        return bool(engine.iterate_n(0))
     if op == "P":
         engine.sample()
         return None
@@ -332,6 +334,8 @@ def check_history(kinds, hist, zyg, variant="plain", twolive_stop=True):
             abst[o] = (abst[o][0], abst[o][1] + op)
             if op in "IN":
                 last_ret[o] = ret
+            elif op == "Z" and ret is False:
+                last_ret[o] = False
         nlive = sum(1 for a in abst if isinstance(a, tuple))
         stop = False
         for p in range(nobj):
@@ -358,7 +362,12 @@ def check_history(kinds, hist, zyg, variant="plain", twolive_stop=True):
                 viol.append(("C10:%s:is_complete:%s" % (tag, cls),
                              "history %s: is_complete() of object %d is %r but its last driver call since its set-up returned %r"
                              % (prefix, p, got["complete"], last_ret[p]), prefix))
-            if completed_obs[p] is not None and p == o and op in "IN":
+            if p == o and op == "Z":
+                was_complete = (last_ret[p] is False)
+                if ret != (not was_complete):
+                    viol.append(("C10:%s:iterate_n(0)-return" % tag,
+                                 "history %s: iterate_n(0) returned %r on a simulation that is %scomplete" % (prefix, ret, "" if was_complete else "not "), prefix))
+            if completed_obs[p] is not None and p == o and op in "INZ":
                 if ret is not False:
                     viol.append(("C10:%s:completion-not-sticky" % tag, "history %s: %s on a completed simulation returned %r" % (prefix, op, ret), prefix))
                 for k in ("t", "data", "progress"):
@@ -373,7 +382,7 @@ def check_history(kinds, hist, zyg, variant="plain", twolive_stop=True):
                 stop = True
                 break
             cret, cobs = cres[1][-1]
-            if p == o and op in "IN" and ret != cret:
+            if p == o and op in "INZ" and ret != cret:
                 viol.append(("C10:%s:driver-return-differs-from-canonical" % tag, "history %s: %s returned %r, canonical %r" % (prefix, op, ret, cret), prefix))
             k, msg = diff_observers(got, cobs)
             if k is not None:
